@@ -404,7 +404,12 @@ const (
 
 var vclassNames = [...]string{"uniform", "smallint", "signed-zero", "subnormal", "huge-tiny", "with-NaN", "with-Inf"}
 
-func (v vclass) String() string { return vclassNames[v] }
+func (v vclass) String() string {
+	if int(v) < len(vclassNames) {
+		return vclassNames[v]
+	}
+	return className(v) // engine-specific classes (red.go)
+}
 
 // genReal draws n float64 values of class vc. maxExp10 bounds the decimal
 // exponent of the huge-tiny class (the family decides how far values can go
